@@ -15,6 +15,8 @@ package c02
 import (
 	"bytes"
 	"context"
+	"crypto/sha256"
+	"encoding/base64"
 	"encoding/json"
 	"errors"
 	"fmt"
@@ -211,6 +213,62 @@ func forge(orig *built, variant int) []byte {
 	return append(hdr, payload...)
 }
 
+// derivedKeys names the file keys anybody can compute from the clear-text
+// header of a document: candidates for a "placeholder" an implementation
+// might fall back to when the vault cannot unwrap the wrapped key.
+var derivedKeys = []string{"sha256(wfk)", "sha256(manifest)", "sha256(first-two-header-lines)", "wfk-cut-or-padded-to-32", "MAC-bytes-of-the-original", "sha256(nonce-prefix)", "nonce-prefix-padded-to-32", "sha256(key-name)", "sha256(scheme-name)", "all-0xFF"}
+
+// forgeDerived is forge with the MAC and the segments made under one of the
+// derivedKeys; the wrapped key is garbage no key unwraps.
+func forgeDerived(orig *built, which int) []byte {
+	n := orig.n
+	if n == 0 {
+		n = 40
+	}
+	q := encenv.Pattern(n, 0xF1)
+	wfk := encenv.Pattern(40, 0xEE)
+	mj, err := encv1ref.EncodeManifest(&encv1ref.Manifest{HasKeyName: true, KeyName: keyName, KW: kw.ID, WFK: wfk, Cipher: orig.cipher, NoncePrefix: npA}, nil)
+	if err != nil {
+		panic(err)
+	}
+	sum := func(b []byte) []byte { h := sha256.Sum256(b); return h[:] }
+	pad := func(b []byte) []byte {
+		k := make([]byte, 32)
+		copy(k, b)
+		return k
+	}
+	var k []byte
+	switch derivedKeys[which] {
+	case "sha256(wfk)":
+		k = sum(wfk)
+	case "sha256(manifest)":
+		k = sum(mj)
+	case "sha256(first-two-header-lines)":
+		k = sum([]byte(encv1ref.SchemeLine + "\n" + string(mj) + "\n"))
+	case "wfk-cut-or-padded-to-32":
+		k = pad(wfk[:32])
+	case "MAC-bytes-of-the-original":
+		oh, _ := encv1ref.SplitHeader(orig.doc)
+		mac, _ := base64.StdEncoding.DecodeString(string(oh.MACLine))
+		k = pad(mac)
+	case "sha256(nonce-prefix)":
+		k = sum(npA)
+	case "nonce-prefix-padded-to-32":
+		k = pad(npA)
+	case "sha256(key-name)":
+		k = sum([]byte(keyName))
+	case "sha256(scheme-name)":
+		k = sum([]byte(encv1ref.SchemeLine))
+	case "all-0xFF":
+		k = bytes.Repeat([]byte{0xFF}, 32)
+	}
+	payload, err := encv1ref.SealSegments(q, k, npA, orig.cipher)
+	if err != nil {
+		panic(err)
+	}
+	return append(encv1ref.BuildHeader(k, mj), payload...)
+}
+
 // apply returns the mutated bytes (always a fresh slice) or false when the
 // mutation does not fit the bytes.
 func apply(d []byte, m Mut, orig *built, lookup func(family, cipher, n int) *built) ([]byte, bool) {
@@ -308,6 +366,11 @@ func apply(d []byte, m Mut, orig *built, lookup func(family, cipher, n int) *bui
 		return join(hdr, ns), true
 	case "forge":
 		return forge(orig, m.A), true
+	case "forge-derived":
+		if m.A < 0 || m.A >= len(derivedKeys) {
+			return nil, false
+		}
+		return forgeDerived(orig, m.A), true
 	case "payload-from":
 		// the header stays, the whole payload is that of a donor document
 		donor := lookup(m.C, orig.cipher, m.L)
@@ -648,6 +711,9 @@ func judge(c *Case, orig *built, mutated []byte, expect, out []byte, err error) 
 		case m.Op == "forge":
 			forged = m.A
 			family = "forged-document"
+		case m.Op == "forge-derived":
+			forged = 2
+			family = "forged-document"
 		case strings.HasPrefix(m.Op, "seg"):
 			family = "segment-operation"
 		default:
@@ -671,6 +737,8 @@ func judge(c *Case, orig *built, mutated []byte, expect, out []byte, err error) 
 	switch {
 	case forged == 1 && class != "stream-does-not-terminate":
 		key = "forged-zero-key-document-accepted-when-unwrap-fails"
+	case forged == 2 && class != "stream-does-not-terminate":
+		key = "forged-document-accepted-under-key-derived-from-public-header-material"
 	case forged == 0 && class != "stream-does-not-terminate":
 		key = "forged-zero-key-document-accepted-with-stale-MAC"
 	case class == "shortened-message-ends-in-clean-EOF" && len(out) == 0 && (l.hdr == len(mutated) && c.FailAt < 0 || c.FailAt >= 0 && !fault):
@@ -824,7 +892,7 @@ func run(r *enumx.Run, replay *enumx.ReplayCase) {
 		}
 		return
 	}
-	r.Rule("each evaluation gives one mutated document (or one faulty source) to kit's Decrypt and reads the stream to its end; oracle: the bytes read before the first error are a prefix of the original plaintext, and the stream ends in a non-EOF error unless they are the whole plaintext; a source fault always ends in an error. Documents: reference-built, 2 ciphers x plaintext lengths {0,1,40,65536,65537,131077}. Single mutations: every bit of every byte (3 small documents) / every bit of the first, last-content and line-feed byte of each header line and of the first and last byte of each segment body and tag (large); truncation to every length (small) / within +-17 of every header-line and segment end (large); extension by 1,16,17,65552 bytes (zeros, copy of the tail); segment delete/duplicate/swap/move-last-forward/append; splice of every segment of donor documents (same key+prefix, same key other prefix, other key; all six lengths) over every segment; unwrap returning a wrong 32-byte key, a 16-byte key, nothing, an error; forged all-zero-key documents with stale or recomputed MAC; ten edits of the text header (whitespace, member order, key name, cipher id, nonce prefix, wrapped key, extra member, MAC padding bits, MAC under the zero key, CRLF). Compound: all ordered pairs over {boundary truncations, bit-flip classes, segment operations} on the two-segment document, the second mutation taken from the alphabet of the already mutated bytes. Faults: sticky non-EOF source error at every Read index, with and without data on the failing call, under default and 1-byte chunking (1-byte chunking on the large documents: quick takes the indexes within +-17 of every header-line, tag and segment boundary; thorough takes every index up to the one-full-segment document and the boundary neighbourhoods plus every 16th index of the two- and three-segment documents). Caller memory: the caller zeroes / overwrites the slice its unwrap function returned right after Decrypt returns (immediately or after one yield; sequential, GOMAXPROCS(1)) on pristine documents and on genuine headers followed by payloads sealed under the zero key / the other key. Two-document sequences: every ordered pair (first Decrypt: own or attacker's document (other file key, same nonce prefix and cipher) intact, broken in each segment, truncated, segment-operated, read to the end / abandoned unread / read partially then dropped; second Decrypt: the pristine document and its tampered variants incl. the genuine header followed by the attacker's payload or segments) must be judged by the oracle, and come out, exactly as the second document run alone (each on fresh nonce prefixes, so that no state is shared by construction). Randomness: Encrypt under a crypto/rand.Reader that fails at its k-th Read, returns short reads or (0,nil) once must return an error or seal under a file key without a run of 16 zero bytes and a nonce prefix that is not all-zero; 460 (thorough 2000) consecutive Encrypts per cipher must use pairwise distinct file keys and nonce prefixes, none degenerate. A case is trivial when the mutation leaves the bytes unchanged.")
+	r.Rule("each evaluation gives one mutated document (or one faulty source) to kit's Decrypt and reads the stream to its end; oracle: the bytes read before the first error are a prefix of the original plaintext, and the stream ends in a non-EOF error unless they are the whole plaintext; a source fault always ends in an error. Documents: reference-built, 2 ciphers x plaintext lengths {0,1,40,65536,65537,131077}. Single mutations: every bit of every byte (3 small documents) / every bit of the first, last-content and line-feed byte of each header line and of the first and last byte of each segment body and tag (large); truncation to every length (small) / within +-17 of every header-line and segment end (large); extension by 1,16,17,65552 bytes (zeros, copy of the tail); segment delete/duplicate/swap/move-last-forward/append; splice of every segment of donor documents (same key+prefix, same key other prefix, other key; all six lengths) over every segment; unwrap returning a wrong 32-byte key, a 16-byte key, nothing, an error; forged all-zero-key documents with stale or recomputed MAC; documents with an unwrappable wrapped key whose MAC and segments are made under a key anybody can derive from the clear-text header (sha256 of the wrapped key / manifest / first two lines / nonce prefix / key name / scheme name, the wrapped key or nonce prefix cut or padded to 32 bytes, the original MAC bytes, all-0xFF), under a working and under a failing vault; ten edits of the text header (whitespace, member order, key name, cipher id, nonce prefix, wrapped key, extra member, MAC padding bits, MAC under the zero key, CRLF). Compound: all ordered pairs over {boundary truncations, bit-flip classes, segment operations} on the two-segment document, the second mutation taken from the alphabet of the already mutated bytes. Faults: sticky non-EOF source error at every Read index, with and without data on the failing call, under default and 1-byte chunking (1-byte chunking on the large documents: quick takes the indexes within +-17 of every header-line, tag and segment boundary; thorough takes every index up to the one-full-segment document and the boundary neighbourhoods plus every 16th index of the two- and three-segment documents). Caller memory: the caller zeroes / overwrites the slice its unwrap function returned right after Decrypt returns (immediately or after one yield; sequential, GOMAXPROCS(1)) on pristine documents and on genuine headers followed by payloads sealed under the zero key / the other key. Two-document sequences: every ordered pair (first Decrypt: own or attacker's document (other file key, same nonce prefix and cipher) intact, broken in each segment, truncated, segment-operated, read to the end / abandoned unread / read partially then dropped; second Decrypt: the pristine document and its tampered variants incl. the genuine header followed by the attacker's payload or segments) must be judged by the oracle, and come out, exactly as the second document run alone (each on fresh nonce prefixes, so that no state is shared by construction). Randomness: Encrypt under a crypto/rand.Reader that fails at its k-th Read, returns short reads or (0,nil) once must return an error or seal under a file key without a run of 16 zero bytes and a nonce prefix that is not all-zero; 460 (thorough 2000) consecutive Encrypts per cipher must use pairwise distinct file keys and nonce prefixes, none degenerate. A case is trivial when the mutation leaves the bytes unchanged.")
 
 	t0 := time.Now()
 	lap := func(name string) {
@@ -880,6 +948,9 @@ func run(r *enumx.Run, replay *enumx.ReplayCase) {
 			muts = append(muts, segOps(l)...)
 			muts = append(muts, splices(b)...)
 			muts = append(muts, Mut{Op: "forge", A: 0}, Mut{Op: "forge", A: 1})
+			for i, name := range derivedKeys {
+				muts = append(muts, Mut{Op: "forge-derived", A: i, Where: name})
+			}
 			for v := range headerEdits {
 				muts = append(muts, Mut{Op: "hdredit", A: v, Where: headerEdits[v]})
 			}
@@ -909,6 +980,11 @@ func run(r *enumx.Run, replay *enumx.ReplayCase) {
 					check(c, orig, d)
 					for v := 0; v < 2; v++ {
 						c := &Case{Cipher: cph, Len: n, Muts: []Mut{{Op: "forge", A: v}}, Unwrap: mode, FailAt: -1}
+						d, orig, _ := mutate(c)
+						check(c, orig, d)
+					}
+					for i, name := range derivedKeys {
+						c := &Case{Cipher: cph, Len: n, Muts: []Mut{{Op: "forge-derived", A: i, Where: name}}, Unwrap: mode, FailAt: -1}
 						d, orig, _ := mutate(c)
 						check(c, orig, d)
 					}
